@@ -22,7 +22,7 @@ def run(ck):
     ck.rule = ("one case = fresh server + one storage index seeded with 0..4 shares (optionally one share migrated in "
                "under a different write enabler) + 8..16 requests; every request is one evaluation; distinct = "
                "distinct (pre-state digest, request); non-trivial = names >=2 shares or hits a rejection path")
-    ncases = 500 if ck.tier == "quick" else 24000
+    ncases = 350 if ck.tier == "quick" else 14000
     for ci in range(ncases):
         if not ck.mine(ci):
             continue
